@@ -53,6 +53,57 @@ def gen_assembly(rng, max_dims=(3, 3, 2), jitter=0.12, fill=None, max_blocks=18,
     return {"dims": dims, "blocks": blocks}
 
 
+def invert_kwargs(kw):
+    """the same physical chop seen from the other end of the edge"""
+    out = {}
+    for k, v in kw.items():
+        if k == "start_size":
+            out["end_size"] = v
+        elif k == "end_size":
+            out["start_size"] = v
+        elif k in ("c2c_expansion", "total_expansion"):
+            out[k] = 1.0 / v
+        elif k == "preserve":
+            out[k] = {"start_size": "end_size", "end_size": "start_size"}.get(v, v)
+        else:
+            out[k] = v
+    return out
+
+
+def local_axis_of(perm, lattice_dir):
+    """for a block renumbered by perm: (local axis, +1/-1) that runs along +lattice_dir of the un-renumbered cell"""
+    for a in range(3):
+        c0, c1 = hexconv.AXIS_EDGES[a][0]
+        d = [hexconv.CORNER[perm[c1]][k] - hexconv.CORNER[perm[c0]][k] for k in range(3)]
+        if d[lattice_dir] != 0:
+            return a, d[lattice_dir]
+    raise AssertionError
+
+
+def realise(base, order=None, perms=None):
+    """base: a case whose blocks are all perm 0 (local axis == lattice direction). Returns the same physical
+    model with the given insertion order and corner renumberings; chops follow their geometric direction
+    (a multi-section chop list on a reversed axis is reversed as well)."""
+    nb = len(base["blocks"])
+    order = list(range(nb)) if order is None else order
+    perms = [0] * nb if perms is None else perms
+    blocks = []
+    for bi in order:
+        src = base["blocks"][bi]
+        perm = hexconv.ROTATIONS[perms[bi]]
+        blk = {"cell": src["cell"], "perm": perms[bi], "base_index": bi,
+               "nodes": hexconv.renumber(src["nodes"], perm), "pts": hexconv.renumber(src["pts"], perm), "chops": []}
+        per_axis = {}
+        for d, kw in src["chops"]:
+            a, sign = local_axis_of(perm, d)
+            per_axis.setdefault((a, sign), []).append(kw if sign > 0 else invert_kwargs(kw))
+        for (a, sign), kws in sorted(per_axis.items()):
+            for kw in (kws if sign > 0 else kws[::-1]):
+                blk["chops"].append([a, kw])
+        blocks.append(blk)
+    return {"dims": base["dims"], "blocks": blocks}
+
+
 # ------------------------------------------------------------------------------------------------
 class UF:
     def __init__(self):
